@@ -963,6 +963,15 @@ def cases_C10(tier='quick', seed=0):
         yield (t, so)
         yield (t, ri)
     # clause keywords of several words spelled with a tab, a line break or several blanks between the words
+    # clause keywords nested in the arguments of a call / in a CASE inside a comparison, with a wrap_after that the
+    # arguments fit into (the list layout must still descend into its items)
+    wide = _o({'reindent': True, 'wrap_after': 60})
+    for t in ('select a from t where coalesce(case when a = 1 and b = 2 then 1 end, 0) = 1',
+              'select greatest(a, case when x > 1 or y > 2 then 1 else 0 end) from t',
+              'select a from t where case when a = 1 and b = 2 then 1 else 0 end = 1 and c = 2',
+              'select f(a, (select b from u where c = 1 and d = 2)) from t'):
+        yield (t, ri)
+        yield (t, wide)
     for t in COMMA_FIRST_ROWS:
         yield (t, sw)
         yield (t, ri)
